@@ -66,7 +66,13 @@ def call_value(ex, ctx, st, f, args, kwargs, node):
         return bm.call_type(ex, ctx, st, o, args, kwargs, node)
     name = getattr(o, "__name__", repr(o))
     mod = getattr(o, "__module__", None)
+    if mod is None and hasattr(o, "__self__"):
+        mod = type(o.__self__).__module__
     key = f"{mod}.{name}"
+    if mod == "esp_pylib.logger" or (hasattr(o, "__self__") and type(o.__self__).__module__ == "esp_pylib.logger"):
+        if name == "die":
+            ex.raise_(st, "SystemExit", node)
+        return bm.x_log(ex, ctx, st, args, kwargs, node)
     if key in bm.EXTERNALS:
         return bm.EXTERNALS[key](ex, ctx, st, args, kwargs, node)
     raise Unsupported(f"call of unmodelled callable {key}")
@@ -235,7 +241,7 @@ def call_member(ex, ctx, st, recv, name, args, kwargs, node, is_prop=False):
 # generic heap arrays into a summary formula, then instantiated at every use by substitution -- so no solver work
 # happens at call sites and the result does not depend on the caller's path condition.
 class Summary:
-    __slots__ = ("formals", "attrs", "old_attrs", "assume", "value", "is_bool", "reusable")
+    __slots__ = ("formals", "attrs", "old_attrs", "assume", "value", "is_bool", "reusable", "fresh")
 
 
 _SUMMARIES = {}
@@ -310,6 +316,20 @@ def _free_fresh(t, bound_ok):
     return out
 
 
+class _Collector:
+    def __init__(self, uid):
+        self.assumed = []
+        self.uid = uid
+        self.n = 0
+
+    def fresh(self, base, sort, idx=()):
+        self.n += 1
+        return z3.Const(f"{base}!{self.uid}.m{self.n}", sort)
+
+    def assume(self, cond, name=None):
+        self.assumed.append(cond)
+
+
 def build_summary(ex, spec, args, base_specs, want_bool, arg_types=None):
     scope, fdef = spec
     st = State()
@@ -357,6 +377,8 @@ def build_summary(ex, spec, args, base_specs, want_bool, arg_types=None):
         used.update(st2.heap)
         return st2, "return", v
 
+    from .state import _uid
+    uid0_sum = _uid[0]
     sub = Explorer(base_pc=base_pc, branch_timeout_ms=2000)
     res = sub.explore(run)
     sm = Summary()
@@ -379,18 +401,48 @@ def build_summary(ex, spec, args, base_specs, want_bool, arg_types=None):
         if not res:
             raise CheckerError(f"spec function {fdef.name} has no feasible path")
         alts = [(z3.And(*r.branches) if r.branches else z3.BoolVal(True), r.value) for r in res]
-        sm.value = merge_values(ex, None, st, alts)
+        coll = _Collector(sub.uid)
+        sm.value = merge_values(ex, coll, st, alts, uid0_sum)
+        if coll.assumed:
+            sm.assume = simp(z3.And(sm.assume, *coll.assumed))
     sm.attrs = sorted(set(k for k in used) | base_attrs)
     sm.old_attrs = sorted(set(old.keys()) | base_old)
     vt = sm.value if want_bool else (box(sm.value) if sm.value.k != "py" else None)
     free = _free_fresh(sm.assume, set())
     if vt is not None:
         free |= _free_fresh(vt, set())
-    sm.reusable = not free
-    sm_free = sorted(free)
-    if free:
-        import sys; print('summary', fdef.name, 'free fresh symbols:', sm_free[:8], file=sys.stderr)
+    # fresh constants (existential witnesses such as first-match indices) are renamed per instantiation;
+    # fresh *functions* cannot be handled that way
+    consts_, funcs_ = _fresh_decls([sm.assume] + ([vt] if vt is not None else []), free)
+    sm.fresh = consts_
+    sm.reusable = not funcs_
+    if funcs_:
+        import sys
+        print("summary", fdef.name, "fresh function symbols:", sorted(funcs_)[:6], file=sys.stderr)
     return sm
+
+
+def _fresh_decls(terms, names):
+    consts, funcs = {}, set()
+    seen = set()
+    stack = list(terms)
+    while stack:
+        x = stack.pop()
+        i = x.get_id()
+        if i in seen:
+            continue
+        seen.add(i)
+        if z3.is_quantifier(x):
+            stack.append(x.body())
+        elif z3.is_app(x):
+            d = x.decl()
+            if d.name() in names:
+                if d.arity() == 0:
+                    consts[d.name()] = x
+                else:
+                    funcs.add(d.name())
+            stack.extend(x.children())
+    return [consts[k] for k in sorted(consts)], funcs
 
 
 def get_summary(ex, spec, args, base_specs, want_bool, arg_types=None):
@@ -423,6 +475,14 @@ def _instantiate(ex, sm, args, st, old_heap, identity=False):
     for attr in sm.old_attrs:
         pairs.append((heap_const("G_", attr) if False else z3.Const(f"GO_{attr}", heap_const("G_", attr).sort()),
                       heap_lookup(oh, attr) if old_heap is not None else ex.heap_get(st, attr)))
+    _inst_n[0] += 1
+    news = []
+    for c_ in sm.fresh:
+        nc = z3.Const(f"{c_.decl().name()}@{_inst_n[0]}", c_.sort())
+        pairs.append((c_, nc))
+        news.append(nc)
+    _LAST_FRESH[0] = news
+
     def sub(t):
         return z3.substitute(t, *pairs) if pairs else t
     if sm.is_bool:
@@ -432,7 +492,11 @@ def _instantiate(ex, sm, args, st, old_heap, identity=False):
     return sub(sm.assume), (subst_sv(v, pairs) if pairs else v)
 
 
-def eval_spec_bool(ex, ctx, st, spec, args, old_heap=None, extra=None, base_specs=(), arg_types=None):
+_inst_n = [0]
+_LAST_FRESH = [[]]
+
+
+def eval_spec_bool(ex, ctx, st, spec, args, old_heap=None, extra=None, base_specs=(), arg_types=None, as_goal=False):
     """Truth value of a spec function on SV args, as one z3 Bool (standing assumptions met while evaluating it
     -- field types, container well-formedness -- are added to ctx as assumptions)."""
     sm = get_summary(ex, spec, args, list(base_specs), True, arg_types)
@@ -440,6 +504,9 @@ def eval_spec_bool(ex, ctx, st, spec, args, old_heap=None, extra=None, base_spec
         raise Unsupported(f"spec function {spec[1].name} creates fresh symbols (not summarisable)")
     a, v = _instantiate(ex, sm, args, st, old_heap)
     ctx.assume(a, "spec-standing-assumptions")
+    if as_goal and _LAST_FRESH[0]:
+        # witnesses introduced by the spec (first-match indices ...) are existential in a proof goal
+        v = z3.Exists(list(_LAST_FRESH[0]), v)
     return v
 
 
@@ -477,6 +544,8 @@ def eval_spec_inline(ex, ctx, st, spec, args):
             st.heap.setdefault(k_, h_)
         return st2, "return", v
 
+    from .state import _uid
+    uid0 = _uid[0]
     sub = Explorer(base_pc=ctx.pc, branch_timeout_ms=ctx.explorer.branch_timeout_ms, stats=ctx.explorer.stats)
     res = sub.explore(run)
     if not res:
@@ -485,7 +554,8 @@ def eval_spec_inline(ex, ctx, st, spec, args):
         if r.assumes:
             g = z3.And(*r.branches) if r.branches else z3.BoolVal(True)
             ctx.assume(z3.Implies(g, z3.And(*r.assumes)))
-    return merge_values(ex, ctx, st, [(z3.And(*r.branches) if r.branches else z3.BoolVal(True), r.value) for r in res])
+    return merge_values(ex, ctx, st, [(z3.And(*r.branches) if r.branches else z3.BoolVal(True), r.value) for r in res],
+                        uid0)
 
 
 def contract_types(ex, c, with_result=False):
@@ -545,7 +615,8 @@ def apply_contract(ex, ctx, st, c, args, kwargs, node):
                 raise Unsupported(f"missing argument {p} to contract {c.target}")
     spec_mode = st.ghost.get("$spec")
     if c.requires is not None and not spec_mode:
-        pre = eval_spec_bool(ex, ctx, st, (c.source_scope, c.requires), args, arg_types=contract_types(ex, c))
+        pre = eval_spec_bool(ex, ctx, st, (c.source_scope, c.requires), args, arg_types=contract_types(ex, c),
+                             as_goal=True)
         ctx.oblige(f"{fname}#call:{c.target.split(':')[1]}.requires", pre,
                    {"kind": "call-precondition", "line": getattr(node, "lineno", None)})
         ctx.assume(pre)
@@ -623,14 +694,65 @@ def eval_guarded(ex, ctx, st, expr, guard):
     return simp(z3.Or(*disj))
 
 
-def merge_values(ex, ctx, st, alts):
-    """alts: list of (guard z3 Bool, SV) covering the current path -> one SV (ite-merged)."""
+def _uid_of(name):
+    if "!" not in name:
+        return None
+    tail = name.split("!", 1)[1]
+    try:
+        return int(tail.split(".", 1)[0].split("@")[0])
+    except ValueError:
+        return None
+
+
+def has_new_witness(t, uid0):
+    """does t mention a fresh symbol created by an explorer younger than uid0 (an existential witness of the
+    sub-evaluation, e.g. a first-match index)?"""
+    seen = set()
+    stack = [t]
+    while stack:
+        x = stack.pop()
+        i = x.get_id()
+        if i in seen:
+            continue
+        seen.add(i)
+        if z3.is_quantifier(x):
+            stack.append(x.body())
+        elif z3.is_app(x):
+            d = x.decl()
+            if d.kind() == z3.Z3_OP_UNINTERPRETED:
+                u = _uid_of(d.name())
+                if u is not None and u > uid0:
+                    return True
+            stack.extend(x.children())
+    return False
+
+
+def merge_values(ex, ctx, st, alts, uid0=None):
+    """alts: list of (guard z3 Bool, SV) covering the current path -> one SV.
+    Deterministic guards give an ite chain.  If a guard mentions an existential witness of the sub-evaluation
+    the merge is relational: a fresh result r with the assumption OR_i (guard_i and r == v_i) -- sound because
+    the alternatives are exhaustive (every evaluation takes one of the paths)."""
     alts = [(g, v) for g, v in alts if not z3.is_false(simp(g))]
     if not alts:
         raise Infeasible()
-    if len(alts) == 1:
+    if len(alts) == 1 and (uid0 is None or not has_new_witness(alts[0][0], uid0)):
         return alts[0][1]
     kinds = {v.k for _, v in alts}
+    relational = uid0 is not None and any(has_new_witness(g, uid0) for g, _ in alts)
+    if relational:
+        if ctx is None:
+            raise CheckerError("relational merge needs a context")
+        if len(kinds) == 1 and next(iter(kinds)) in ("int", "bool", "str", "flt"):
+            k = alts[0][1].k
+            so = {"int": Int, "bool": z3.BoolSort(), "str": z3.StringSort(), "flt": z3.RealSort()}[k]
+            r = ctx.fresh("mrg", so, tuple(st.idx))
+            ctx.assume(z3.Or(*[z3.And(g, r == v.t) for g, v in alts]))
+            return SV(k, r)
+        if "py" in kinds:
+            raise Unsupported("relational merge of concrete python objects")
+        r = ctx.fresh("mrg", V, tuple(st.idx))
+        ctx.assume(z3.Or(*[z3.And(g, r == box(v)) for g, v in alts]))
+        return mk_any(r)
     if len(kinds) == 1 and next(iter(kinds)) in ("int", "bool", "str", "flt"):
         k = alts[0][1].k
         out = alts[-1][1].t
@@ -650,6 +772,20 @@ def merge_values(ex, ctx, st, alts):
     return mk_any(simp(out))
 
 
+class _GuardedCtx:
+    """ctx proxy whose assumptions are added under a guard"""
+
+    def __init__(self, ctx, guard):
+        self._c = ctx
+        self._g = guard
+
+    def fresh(self, *a, **k):
+        return self._c.fresh(*a, **k)
+
+    def assume(self, cond, name=None):
+        self._c.assume(z3.Implies(self._g, cond), name)
+
+
 def eval_merged(ex, ctx, st, expr, guard=None):
     """Evaluate a spec expression in a sub-exploration (optionally under an extra guard) and merge its paths
     into one value.  Paths that hit an undefined operation must be infeasible (else the spec is partial)."""
@@ -664,6 +800,8 @@ def eval_merged(ex, ctx, st, expr, guard=None):
             raise Infeasible()
 
     base = ctx.pc + ([guard] if guard is not None else [])
+    from .state import _uid
+    uid0 = _uid[0]
     sub = Explorer(base_pc=base, branch_timeout_ms=ctx.explorer.branch_timeout_ms, stats=ctx.explorer.stats)
     res = sub.explore(run)
     for r in res:
@@ -677,7 +815,11 @@ def eval_merged(ex, ctx, st, expr, guard=None):
     alts = [(z3.And(*r.branches) if r.branches else z3.BoolVal(True), r.value) for r in res]
     if not alts:
         return None
-    return merge_values(ex, ctx, st, alts)
+    if guard is not None and any(has_new_witness(g_, uid0) for g_, _ in alts):
+        # relational merge is only asserted under the guard
+        v = merge_values(ex, _GuardedCtx(ctx, guard), st, alts, uid0)
+        return v
+    return merge_values(ex, ctx, st, alts, uid0)
 
 
 def state_sig(st):
@@ -725,6 +867,8 @@ def try_merge_expr(ex, ctx, st, expr, guard):
             raise Infeasible()
         return st2, "return", v
 
+    from .state import _uid
+    uid0 = _uid[0]
     sub = Explorer(base_pc=ctx.pc + [guard], branch_timeout_ms=ctx.explorer.branch_timeout_ms, stats=ctx.explorer.stats,
                    max_paths=64)
     try:
@@ -737,8 +881,11 @@ def try_merge_expr(ex, ctx, st, expr, guard):
         if r.assumes:
             ctx.assume(z3.Implies(z3.And(guard, *r.branches), z3.And(*r.assumes)))
         ctx.assumptions_used.extend(r.assumptions)
+    alts_ = [(z3.And(*r.branches) if r.branches else z3.BoolVal(True), r.value) for r in res]
+    if any(has_new_witness(g_, uid0) for g_, _ in alts_):
+        return None
     try:
-        return merge_values(ex, ctx, st, [(z3.And(*r.branches) if r.branches else z3.BoolVal(True), r.value) for r in res])
+        return merge_values(ex, ctx, st, alts_)
     except Unsupported:
         return None
 
